@@ -30,6 +30,13 @@ fn max_limbs(m: &Mon, r: &mut Rng) -> usize {
 
 fn value(m: &Mon, r: &mut Rng, radix: u32) -> BigUint {
     let mx = max_limbs(m, r);
+    if r.chance(1, 12) {
+        // any word count inside the divide-and-conquer range of the printer and the parser: their tables of
+        // radix powers gain a level at irregular lengths (63, 125, 127, 249, 253, ... words depending on
+        // the radix), which boundary lists derived from the documented thresholds do not contain
+        let n = 17 + r.usize(if m.thorough() { 1500 } else { 504 });
+        return nat(&gen::shape(r, n));
+    }
     match r.below(8) {
         0 => {
             // radix^k, radix^k - 1 (all-max digits), radix^k + 1
